@@ -34,7 +34,7 @@ def strategy_(draw, tier):
     n = draw(st.integers(1, 16 if big else 7))
     k = draw(st.integers(1, 16 if big else 7))
     cell = np.exp(draw(hnp.arrays(np.float64, (d,), elements=st.floats(-2, 2, width=32))))
-    kind = draw(st.sampled_from(["uniform", "uniform", "quarters", "integers"]))
+    kind = draw(st.sampled_from(["uniform", "uniform", "quarters", "integers", "float32"]))
     if kind == "uniform":
         mag = 10.0 ** draw(st.floats(0, 4, width=32))
         rng = gen.rng_of(draw)
@@ -46,6 +46,11 @@ def strategy_(draw, tier):
             j = draw(st.integers(0, k - 1))
             h = draw(hnp.arrays(np.int64, (d,), elements=st.integers(-3, 3)))
             Y[j] = X[i] + 0.5 * cell * h
+    elif kind == "float32":
+        # single-precision inputs: the result must be the periodic distance of those numbers (to single precision)
+        rng = gen.rng_of(draw)
+        X = (rng.uniform(-8, 8, size=(n, d)) * cell).astype(np.float32)
+        Y = (rng.uniform(-8, 8, size=(k, d)) * cell).astype(np.float32)
     elif kind == "integers":
         # integer-typed coordinates with a non-integer cell: the result must be that of the same numbers as floats
         X = draw(hnp.arrays(np.int64, (n, d), elements=st.integers(-20, 20)))
@@ -116,6 +121,11 @@ def check(case, ctx):
     tol = 1e-11 * (maxabs + np.linalg.norm(cell))
     ctx.cls("kind=" + case["kind"], "d=%d" % d)
 
+    if case["kind"] == "float32":
+        with ctx.lib("periodic-float32"):
+            D32 = np.asarray(ppd(Xi, Yi, cell_length=cell), float)
+            M32 = np.asarray(pmd(Xi, Yi, np.eye(d), cell_length=cell), float)[0]
+            P32 = np.asarray(pmd(Xi, Yi, (case["L"][0] @ case["L"][0].T), cell_length=None), float)[0]
     if case["kind"] == "integers":
         with ctx.lib("periodic-int"):
             Dint = ppd(Xi, Yi, cell_length=cell)
@@ -139,6 +149,12 @@ def check(case, ctx):
     ctx.cls("half_cell_pair=%s" % half)
 
     ctx.true("shape", D.shape == (n, k), "shape %s" % (D.shape,))
+    if case["kind"] == "float32":
+        t32 = 1e-4 * (maxabs + np.linalg.norm(cell))
+        ctx.close("float32-input", D32, Dref, t32, "float32 X/Y vs the minimum-image oracle on the same numbers")
+        ctx.close("float32-input(mahalanobis,cell)", M32, Dref, t32 + 1e-3 * Dref.max(), "float32 input, identity precision with cell")
+        ref32 = np.sqrt((((X[:, None, :] - Y[None, :, :]) @ case["L"][0]) ** 2).sum(-1))
+        ctx.close("float32-input(mahalanobis,whitened)", P32, ref32, 1e-3 * max(1.0, ref32.max()), "float32 input, L L^T precision without cell")
     if case["kind"] == "integers":
         ctx.close("integer-typed-input", Dint, D, tol, "integer-typed X/Y vs the same values as floats")
         ctx.close("integer-typed-input(mahalanobis)", Mint[0] ** 2, D ** 2, 8 * tol * (D.max() + tol) + 1e-15 * D.max() ** 2, "integer-typed input, identity precision")
